@@ -11,7 +11,8 @@ Inductive exn :=
 | XRuntimeError | XAttributeError                        (* generic Exception subclasses *)
 | XImportError | XModuleNotFound
 | XSyntaxError | XUnicodeDecode | XOSError | XFileNotFound
-| XLoadingError.                                         (* _griffe.exceptions.LoadingError *)
+| XLoadingError                                          (* _griffe.exceptions.LoadingError *)
+| XPanic.                                                (* a BaseException subclass of the analysed code (pyo3's PanicException) *)
 
 Inductive agent := ACreate | AVisit | AInspect | ARaise (x : exn).
 
@@ -23,11 +24,12 @@ Definition exn_name (x : exn) : string :=
   | XSyntaxError => "SyntaxError" | XUnicodeDecode => "UnicodeDecodeError"
   | XOSError => "OSError" | XFileNotFound => "FileNotFoundError"
   | XLoadingError => "LoadingError"
+  | XPanic => "PanicException"
   end.
 
 Definition all_exn : list exn :=
   [XSystemExit; XKeyboardInterrupt; XRuntimeError; XAttributeError; XImportError; XModuleNotFound;
-   XSyntaxError; XUnicodeDecode; XOSError; XFileNotFound; XLoadingError].
+   XSyntaxError; XUnicodeDecode; XOSError; XFileNotFound; XLoadingError; XPanic].
 
 (* the class and its bases (names, by MRO, without `object`); tied to CPython/Griffe by the oracle check *)
 Definition ancestors (x : exn) : list string :=
@@ -43,6 +45,7 @@ Definition ancestors (x : exn) : list string :=
   | XOSError => ["OSError"; "Exception"; "BaseException"]
   | XFileNotFound => ["FileNotFoundError"; "OSError"; "Exception"; "BaseException"]
   | XLoadingError => ["LoadingError"; "GriffeError"; "Exception"; "BaseException"]
+  | XPanic => ["PanicException"; "BaseException"]
   end.
 
 Definition str_in (s : string) (l : list string) : bool := existsb (String.eqb s) l.
@@ -63,3 +66,16 @@ Definition exn_eqb (a b : exn) : bool := String.eqb (exn_name a) (exn_name b).
 (* the families a caller of griffe.load is documented to handle *)
 Definition import_family (x : exn) : bool :=
   match x with XImportError | XModuleNotFound | XLoadingError => true | _ => false end.
+
+(* the public ways into the loader: griffe.load, griffe.load_git, `griffe dump`, and the three loads of `griffe check`
+   (the old reference through load_git, the new one through load_git when a base reference is given, through load otherwise) *)
+Inductive entry := ELoad | ELoadGit | EDump | ECheckOld | ECheckNewRef | ECheckNewTree.
+Definition all_entries : list entry := [ELoad; ELoadGit; EDump; ECheckOld; ECheckNewRef; ECheckNewTree].
+Definition entry_name (e : entry) : string :=
+  match e with
+  | ELoad => "load" | ELoadGit => "load_git" | EDump => "dump"
+  | ECheckOld => "check_old" | ECheckNewRef => "check_new_ref" | ECheckNewTree => "check_new_tree"
+  end.
+
+(* the statements of GriffeLoader._inspect_module, in source order *)
+Inductive istep := ISkipIgnored | IReadSource | IInspect.
